@@ -122,6 +122,34 @@ def _double(n1: int, f1: int, n2: int, f2: int) -> bool:
     return _parse_outcome(doc)
 
 
+_GOOD_FRESH = None
+
+
+def _fault_then_good(node_i: int, fault: int) -> bool:
+    """A parser object that was refused a malformed document is handed a well-formed one afterwards:
+    no internal error, and the same result as a fresh parser gives."""
+    global _GOOD_FRESH
+    from props.parser_common import unparse
+    if _GOOD_FRESH is None:
+        _GOOD_FRESH = unparse(dg.parse(copy.deepcopy(DOC)))
+    doc = copy.deepcopy(DOC)
+    apply_fault(doc, node_i, fault)
+    parser = DznJsonAst()
+    parser._ast = doc  # pylint: disable=protected-access
+    try:
+        parser.process()
+    except (DznJsonError, NamespaceIdsTypeError):
+        pass
+    parser._ast = copy.deepcopy(DOC)  # pylint: disable=protected-access
+    res = parser.process()              # anything raised here escapes = failure
+    return unparse(res) == _GOOD_FRESH
+
+
+def h_fault_then_good(node_i: int, fault: int) -> bool:
+    """Every single fault, followed by a well-formed document on the same parser object."""
+    return run_native(_fault_then_good, pick(range(len(NODES)), node_i), pick(SMALL_FAULTS, fault))
+
+
 def h_single_fault(node_i: int, fault: int) -> bool:
     """Every single fault at every node of the rich document."""
     return run_native(_single, pick(range(len(NODES)), node_i), pick(range(NFAULT), fault))
@@ -225,6 +253,11 @@ SPECS = [
       shards=lambda p: [f'node_i % 16 == {i}' for i in range(16)],
       bounds='every single fault: %d nodes x (delete + %d retags + %d replacement values)'
              % (len(NODES), len(RETAGS), len(REPLACEMENTS))),
+    H('h_fault_then_good', 'deep', pre=['0 <= node_i < %d' % len(NODES), '0 <= fault < 6'],
+      quick=dict(ct=280, pt=30), thorough=dict(ct=900, pt=30),
+      shards=lambda p: [f'node_i % 8 == {i}' for i in range(8)],
+      bounds='%d nodes x 6 fault kinds, each followed by a well-formed document on the same parser object'
+             % len(NODES)),
     H('h_double_fault', 'deep',
       pre=['0 <= n1 < %d' % len(NODES), 'n1 < n2 <= n1 + {W}', 'n2 < %d' % len(NODES),
            '0 <= f1 < %d' % len(SMALL_FAULTS), '0 <= f2 < %d' % len(SMALL_FAULTS)],
